@@ -39,7 +39,11 @@ pub fn decode_start(b: &mut Bytes) -> Option<Start> {
     let mode = b.next();
     match mode % 4 {
         0 => {
-            let id = (b.next() as usize) % crate::synth::N_SCEN;
+            // (modulus fixed at 32 so that adding a recipe does not re-map stored inputs)
+            let id = (b.next() as usize) % 32;
+            if id >= crate::synth::N_SCEN {
+                return None;
+            }
             let seed = (b.next() as u64) | (b.next() as u64) << 8 | (b.next() as u64) << 16;
             let mut rng = Rng::new(seed ^ 0xfeed);
             crate::synth::scenario(&mut rng, id)
@@ -184,7 +188,9 @@ pub fn run_with(mon: &mut dyn NodeMon, data: &[u8], rep: &mut Report, stop_at_fi
             out
         };
         let np = p.make(m);
-        if !follow && !crate::conv::same_core(&crate::conv::read_board(&nb), &np) {
+        let lib_view = crate::conv::read_board(&nb);
+        let soft = mon.through_rights_divergence() && lib_view.sq[..] == np.sq[..] && lib_view.stm == np.stm;
+        if !follow && !soft && !crate::conv::same_core(&lib_view, &np) {
             let n = Node { b: &nb, p: &np, legal: &[], ply: ply + 1, prev: Some((&b, &p, m)), after_null: false, tag: "fuzz", incremental: true, diverged: true };
             mon.node(&n, rep, &mut rng);
             return;
